@@ -2,7 +2,7 @@
 """usage: seedkeep.py <ID> <name> '<what I ran / which check caught it>'  -- copies /tmp/seed_<ID>/_seed into /verif/seeded/<name>/ and extends meta.json"""
 import json, os, shutil, sys
 pid, name, note = sys.argv[1], sys.argv[2], sys.argv[3]
-src = "/tmp/seed_%s/_seed" % pid
+src = "/tmp/%s_%s/_seed" % (os.environ.get("SEEDPFX", "seed"), pid)
 dst = "/verif/seeded/%s" % name
 os.makedirs(dst, exist_ok=True)
 for f in os.listdir(src):
